@@ -217,3 +217,26 @@ Example ex_group :
          MGroup [MInt 2 false true 2; MBool false]] /\
   inflate 0 [FInt 1 false false; FGroup 0 (-1) [FInt 2 false true; FBool]] [9; 1; 0; 1; 2; 0] = Null.
 Proof. vm_compute. split; reflexivity. Qed.
+
+(* Store lookups are pure finite-map lookups in the regenerated table: looking up (manufacturer, PID
+   value) or (manufacturer, name) returns THE entry of the table with that key -- it is in the
+   table, has the key, and no other entry has it -- or none when the table has no such entry.
+   RootPidStore::GetDescriptor is modelled by get_by_pid / get_by_name (ESTA store first, then the
+   manufacturer's store if it exists), which are compositions of these lookups and therefore depend
+   on their arguments only, not on any earlier lookup.  (That the C++ store has no lookup state is
+   validated by the harness: histories of ManufacturerStore/GetDescriptor calls, key h.) *)
+Theorem c14_store_lookup : forall man pid name,
+  match find_pid PidDescs.pids man pid with
+  | Some e => In e PidDescs.pids /\ fst (fst e) = man /\ snd (fst e) = pid /\
+              forall e', In e' PidDescs.pids -> fst (fst e') = man -> snd (fst e') = pid -> e' = e
+  | None => forall e', In e' PidDescs.pids -> ~ (fst (fst e') = man /\ snd (fst e') = pid)
+  end /\
+  match find_name PidDescs.pids man name with
+  | Some e => In e PidDescs.pids /\ fst (fst e) = man /\ snd e = name /\
+              forall e', In e' PidDescs.pids -> fst (fst e') = man -> snd e' = name -> e' = e
+  | None => forall e', In e' PidDescs.pids -> ~ (fst (fst e') = man /\ snd e' = name)
+  end.
+Proof.
+  intros man pid name. split; [exact (shipped_lookup_pid man pid)|exact (shipped_lookup_name man name)].
+Qed.
+Print Assumptions c14_store_lookup.
